@@ -8,6 +8,7 @@ import (
 	"bytes"
 	"encoding/json"
 	"fmt"
+	"os"
 	"strings"
 	"time"
 
@@ -623,7 +624,7 @@ func runAdmit(c *corr.Ctx, cfg [4]bool, trs []trSpec, name string) {
 	if len(toks) > 0 {
 		trl = strings.Join(toks, ",")
 	}
-	c.Add(corr.Case{Name: name, Ops: []string{fmt.Sprintf("sec admit %s %s %s %s %s", corr.B(cfg[0]), corr.B(cfg[1]), corr.B(cfg[2]), corr.B(cfg[3]), trl)},
+	c.Add(corr.Case{Name: name, Ops: []string{fmt.Sprintf("sec pick %s %s %s %s %s", corr.B(cfg[0]), corr.B(cfg[1]), corr.B(cfg[2]), corr.B(cfg[3]), trl)},
 		Impl: []string{impl}, Nontrivial: len(trs) > 0})
 }
 
@@ -985,19 +986,24 @@ func Run(c *corr.Ctx) {
 		replay(c, &in)
 		return
 	}
-	runCorpus(c)
-	sweepPolicy(c)
-	allAdmit(c)
-	for i := 0; i < c.N(3000, 60000); i++ {
-		genM2C(c, i)
+	only := os.Getenv("VERIF_SEC_ONLY") // development aid: "unit" or "e2e"
+	if only != "e2e" {
+		runCorpus(c)
+		sweepPolicy(c)
+		allAdmit(c)
+		for i := 0; i < c.N(3000, 60000); i++ {
+			genM2C(c, i)
+		}
+		for i := 0; i < c.N(1500, 30000); i++ {
+			genC2M(c, i)
+		}
+		for i := 0; i < c.N(600, 12000); i++ {
+			genPipe(c, i)
+		}
 	}
-	for i := 0; i < c.N(1500, 30000); i++ {
-		genC2M(c, i)
+	if only != "unit" {
+		runE2E(c)
 	}
-	for i := 0; i < c.N(600, 12000); i++ {
-		genPipe(c, i)
-	}
-	runE2E(c)
 }
 
 func replay(c *corr.Ctx, in *Input) {
